@@ -101,6 +101,7 @@ namespace Givaro
         Element& init(Element& a) const;
         Element& init(Element& r, const float a) const;
         Element& init(Element& r, const double a) const;
+        Element& init(Element& r, const uint64_t a) const; // the template below would narrow a to int64_t first
         Element& init(Element& r, const Integer& a) const;
         template<typename T> Element& init(Element& r, const T& a) const
         { r = Caster<Element>(a); return reduce(r); }
